@@ -1167,7 +1167,8 @@ def fn_path_from_block(fn, bid, barrier_ids, target_ids):
 
 def first_pass_rules(fb, R, M):
     track_q = set(f.q for f in M.track_fns)
-    direct = [f for f in fb.functions if f.cls == RM and f.has_cfg and not f.is_lambda and any(calls(f, tq) for tq in track_q)]
+    # the first-pass routine: tracks members or stores the relation (either role identifies it: a deleted track() is a violation)
+    direct = [f for f in fb.functions if f.cls == RM and f.has_cfg and not f.is_lambda and (any(calls(f, tq) for tq in track_q) or calls(f, RDB + '::add'))]
     via = [f for (f, _v) in M.proto._callers_on_this({f.usr for f in direct}).values() if f.cls == RM and not f.is_lambda]
     fns = _tops(direct + via)
     zero_sites = set()
